@@ -1458,6 +1458,36 @@ Proof.
       * exists h, "<"%char, []. eexists. split; [reflexivity|]. split; [exact Hh|]. split; reflexivity.
       * exists h, ":"%char, [":"%char]. eexists. split; [reflexivity|]. split; [exact Hh|]. split; reflexivity.
 Qed.
+Lemma ty_second4 : forall t n tl, wf_ty t -> is_ident n = true ->
+  exists h c t' rest', ty_toks t ++ n :: tl = h :: (c :: t') :: rest' /\ is_ident h = true /\ solid c = true /\ ceq "("%char c = false /\ ceq "="%char c = false /\ ceq ";"%char c = false.
+Proof.
+  intros t n tl Hw Hn.
+  destruct (ident_first_alpha n Hn) as [cn [wn [En Hcn]]]. destruct (alpha_plain cn Hcn) as [Sn_ [Ln [En_ [Smn _]]]].
+  assert (Wk : is_ident kconst = true) by reflexivity.
+  destruct t as [[ns [nm|o] insts] c k basic | ns [nm|o] ps c k]; cbn [wf_ty] in Hw; try contradiction.
+  - destruct Hw as [Hi Hb]. subst insts. cbn [ty_toks].
+    assert (Hp : Forall (fun x => is_ident x = true) (names_of ns nm)).
+    { destruct basic; [|exact (proj1 Hb)]. destruct Hb as [E Hin]. subst ns. cbn. constructor; [|constructor]. exact (proj1 (basic_ident nm Hin)). }
+    destruct (names_of_cons ns nm) as [h [l [E _]]]. rewrite E in *. pose proof (Forall_inv Hp) as Hh. rewrite path_toks_cons.
+    destruct (ident_first_alpha h Hh) as [ch [wh [Eh Hch]]]. destruct (alpha_plain ch Hch) as [Sh [Lh [Eh_ [Smh _]]]].
+    destruct c; cbn [const_toks app].
+    + exists kconst, ch, wh. eexists. split; [rewrite Eh; reflexivity|]. split; [exact Wk|]. repeat split; assumption.
+    + destruct l as [|m l]; cbn [tail_toks flat_map app].
+      * destruct k; cbn [marker app].
+        -- exists h, cn, wn. eexists. split; [rewrite En; reflexivity|]. split; [exact Hh|]. repeat split; assumption.
+        -- exists h, "*"%char, []. eexists. split; [reflexivity|]. split; [exact Hh|]. repeat split; reflexivity.
+        -- exists h, "@"%char, []. eexists. split; [reflexivity|]. split; [exact Hh|]. repeat split; reflexivity.
+        -- exists h, "&"%char, []. eexists. split; [reflexivity|]. split; [exact Hh|]. repeat split; reflexivity.
+      * exists h, ":"%char, [":"%char]. eexists. split; [reflexivity|]. split; [exact Hh|]. repeat split; reflexivity.
+  - destruct Hw as [[Hp _] _]. cbn [ty_toks]. unfold tt_toks.
+    destruct (names_of_cons ns nm) as [h [l [E _]]]. rewrite E in *. pose proof (Forall_inv Hp) as Hh. rewrite path_toks_cons.
+    destruct (ident_first_alpha h Hh) as [ch [wh [Eh Hch]]]. destruct (alpha_plain ch Hch) as [Sh [Lh [Eh_ [Smh _]]]].
+    destruct c; cbn [const_toks app].
+    + exists kconst, ch, wh. eexists. split; [rewrite Eh; reflexivity|]. split; [exact Wk|]. repeat split; assumption.
+    + destruct l as [|m l]; cbn [tail_toks flat_map app].
+      * exists h, "<"%char, []. eexists. split; [reflexivity|]. split; [exact Hh|]. repeat split; reflexivity.
+      * exists h, ":"%char, [":"%char]. eexists. split; [reflexivity|]. split; [exact Hh|]. repeat split; reflexivity.
+Qed.
 
 Lemma lit_noprefix : forall p (l : string) n r, word n -> boundary r -> ~ In " "%char (chars_of l) -> prefix (chars_of l) n = None ->
   run_term (TLit l) {| pk := p; rest := sp n r |} = Fail.
@@ -1611,6 +1641,62 @@ Proof.
     rewrite (b_ret_single (ty_value t) t ltac:(unfold b_type; apply (ty_rebuilt depth_fuel t Hd Hw))). cbn [bind]. rewrite B4. reflexivity.
 Qed.
 
+(* ---- `static T name ( args ) ;` ---- *)
+Definition static_member (t : ty) (n : string) (args : list (ty * string)) : member :=
+  MStatic {| s_tmpl := None; s_name := n; s_ret := RSingle t; s_args := map mk_arg args |}.
+Definition static_toks (t : ty) (n : chars) (args : list (ty * string)) : list chars :=
+  [kstatic] ++ ty_toks t ++ [n; lparen] ++ args_toks args ++ [rparen; semi].
+
+Lemma static_ok : forall t n args, wf_ty t -> depth t < depth_fuel -> head_word (ty_toks t) -> is_ident n = true -> Forall wf_arg args ->
+  forall p R f, fuel_of t <= f -> args_fuel args <= f ->
+  exists v p', interp g (20 + f) (GRef "StaticMethod") {| pk := p; rest := render (static_toks t n args) R |} = Match [([], v)] {| pk := p'; rest := R |}
+               /\ b_member v = Ok (static_member t (string_of n) args).
+Proof.
+  intros t n args Hw Hd HH Hn Ha p R f Hft Hfa. cbn [Nat.add]. rule "StaticMethod"%string.
+  rewrite i_and, seq_cons, i_and, seq_cons, i_and, seq_cons, i_and, seq_cons, i_and, seq_cons, i_and, seq_cons, i_and, seq_cons.
+  unfold static_toks. rewrite !render_app. change (render [kstatic] ?x) with (sp kstatic x). change (render [n; lparen] ?x) with (sp n (sp lparen x)).
+  change (render [rparen; semi] R) with (sp rparen (sp semi R)).
+  set (AFTER := sp semi R). set (ARGS := render (args_toks args) (sp rparen AFTER)).
+  set (NAME := sp n (sp lparen ARGS)).
+  assert (Fn : follow NAME) by (apply follow_ident; exact Hn).
+  assert (Bt : boundary (render (ty_toks t) NAME)).
+  { destruct HH as [h [rest' [Eh _]]]. rewrite Eh. right. eexists. reflexivity. }
+  assert (Ws : word kstatic) by (split; [discriminate | reflexivity]).
+  pose proof (template_opt_none (5 + f) p kstatic _ Ws Bt ltac:(discriminate)) as T. unfold TEMPLATE_OPT in T. cbn [Nat.add] in T. rewrite T. clear T.
+  cbn [app]. rewrite seq_cons, i_term.
+  destruct (kw_self p "s"%char (chars_of "tatic") (render (ty_toks t) NAME) eq_refl Bt) as [p0 E0].
+  change (string_of ("s"%char :: chars_of "tatic")) with "static"%string in E0.
+  change (sp ("s"%char :: chars_of "tatic") (render (ty_toks t) NAME)) with (sp kstatic (render (ty_toks t) NAME)) in E0. rewrite E0.
+  rewrite seq_nil. cbn [app]. rewrite seq_cons, i_name.
+  assert (HP : parses (fuel_of t) (ty_toks t) (ty_value t)) by (apply (ty_parses (S (depth t))); [apply Nat.lt_succ_diag_r | exact Hw]).
+  destruct (rt_single_ok (fuel_of t) (ty_toks t) (ty_value t) HP HH (S f) p0 NAME Fn ltac:(lia)) as [p1 E1]. cbn [Nat.add] in E1. rewrite E1.
+  cbn [map add_name fst snd app]. rewrite seq_nil. cbn [app]. rewrite seq_cons, i_name.
+  assert (Bl : boundary (sp lparen ARGS)) by (right; eexists; reflexivity).
+  unfold NAME. destruct (IDENT_ok (Sn 11 f) p1 n (sp lparen ARGS) Hn Bl) as [p2 E2]. cbn [Sn] in E2. unfold IDENT in E2. rewrite E2.
+  cbn [map add_name fst snd]. rewrite seq_nil. cbn [app]. rewrite seq_cons, i_sup.
+  destruct (lit1_at (Sn 13 f) p2 "("%char ARGS eq_refl) as [p3 E3]. cbn [Sn] in E3. change (sp ["("%char] ARGS) with (sp lparen ARGS) in E3.
+  rewrite E3, seq_nil. cbn [app]. rewrite seq_cons, i_name. unfold ARGS.
+  destruct (arglist_roundtrip args Ha p3 AFTER (Sn 15 f) ltac:(cbn [Sn]; lia)) as [va [p4 [E4 B4]]]. cbn [Sn] in E4. rewrite E4.
+  cbn [map add_name fst snd]. rewrite seq_nil. cbn [app]. rewrite seq_cons, i_sup.
+  destruct (lit1_at (Sn 15 f) p4 ")"%char AFTER eq_refl) as [p5 E5]. cbn [Sn] in E5. change (sp [")"%char] AFTER) with (sp rparen AFTER) in E5.
+  rewrite E5, seq_nil. cbn [app]. rewrite seq_cons, i_sup. unfold AFTER.
+  destruct (lit1_at (Sn 16 f) p5 ";"%char R eq_refl) as [p6 E6]. cbn [Sn] in E6. change (sp [";"%char] R) with (sp semi R) in E6.
+  rewrite E6, seq_nil. cbn [app]. eexists. exists p6. split; [reflexivity|].
+  cbn [b_member]. unfold add_name. cbn [fst snd map app].
+  repeat match goal with |- context [String.eqb ?a ?b] =>
+    let x := eval vm_compute in (String.eqb a b) in change (String.eqb a b) with x end.
+  cbv iota. unfold b_tmpl, name_of, ret_of, args_of.
+  match goal with |- context [first_named "template" ?L] =>
+    change (first_named "template" L) with (@None value); change (first_named "name" L) with (Some (VStr (string_of n)));
+    change (first_named "return_type" L) with (Some (VNode "ReturnType" [(["type1"%string], ty_value t)]));
+    change (first_named "args_list" L) with (Some va) end.
+  cbv iota. cbn [bind].
+  rewrite (b_ret_single (ty_value t) t ltac:(unfold b_type; apply (ty_rebuilt depth_fuel t Hd Hw))). cbn [bind]. rewrite B4. reflexivity.
+Qed.
+
+Lemma static_parses : parses 13 [kstatic] (ty_value (kw_type "static")).
+Proof. apply (kw_parses "static"); [reflexivity|]. vm_compute. intuition discriminate. Qed.
+
 Lemma name_parses : forall n, is_ident n = true -> ~ In n reserved -> parses 13 [n] (VNode "Type" (custom_items false [n] PNone)).
 Proof.
   intros n Hn Hr f p r Hfo Hf. assert (X : exists f', f = 13 + f') by (exists (f - 13); lia). destruct X as [f' E]. subst f.
@@ -1684,7 +1770,8 @@ Inductive mem : Type :=
 | MC (args : list (ty * string))
 | MM (t : ty) (name : string) (args : list (ty * string)) (cst : bool)
 | MP (t : ty) (name : string)
-| ME (name : string) (enumerators : list string).
+| ME (name : string) (enumerators : list string)
+| MS (t : ty) (name : string) (args : list (ty * string)).
 
 Definition mem_toks (cn : chars) (m : mem) : list chars :=
   match m with
@@ -1692,6 +1779,7 @@ Definition mem_toks (cn : chars) (m : mem) : list chars :=
   | MM t n args cst => method_toks t (chars_of n) args cst
   | MP t n => var_toks t n
   | ME n l => enum_toks n l
+  | MS t n args => static_toks t (chars_of n) args
   end.
 Definition mem_member (cn : string) (m : mem) : member :=
   match m with
@@ -1699,17 +1787,20 @@ Definition mem_member (cn : string) (m : mem) : member :=
   | MM t n args cst => method_member t n args cst
   | MP t n => MVar {| v_ty := t; v_name := n; v_default := None |}
   | ME n l => MEnum {| e_name := n; e_items := l |}
+  | MS t n args => static_member t n args
   end.
 Definition name_ok (h : chars) : Prop :=
   no_us h /\ h <> ktemplate /\ h <> kstatic /\ h <> kenum /\ h <> kpair.
 Definition head_mem (t : ty) : Prop := exists h rest', ty_toks t = h :: rest' /\ word h /\ name_ok h.
 Definition not_operator (n : chars) : Prop := prefix koperator n = None.
+Definition head_stat (t : ty) : Prop := exists h rest', ty_toks t = h :: rest' /\ word h /\ h <> kpair /\ not_operator h.
 Definition wf_mem (m : mem) : Prop :=
   match m with
   | MC args => Forall wf_arg args
   | MM t n args _ => wf_ty t /\ depth t < depth_fuel /\ head_mem t /\ is_ident (chars_of n) = true /\ not_operator (chars_of n) /\ Forall wf_arg args
   | MP t n => wf_ty t /\ depth t < depth_fuel /\ head_mem t /\ is_ident (chars_of n) = true /\ not_operator (chars_of n)
   | ME n l => wf_enum n l /\ not_operator (chars_of n)
+  | MS t n args => wf_ty t /\ depth t < depth_fuel /\ head_stat t /\ is_ident (chars_of n) = true /\ Forall wf_arg args
   end.
 Definition mem_fuel (m : mem) : nat :=
   match m with
@@ -1717,6 +1808,7 @@ Definition mem_fuel (m : mem) : nat :=
   | MM t _ args _ => fuel_of t + args_fuel args
   | MP t _ => fuel_of t
   | ME _ l => length l
+  | MS t _ args => fuel_of t + args_fuel args
   end.
 
 Lemma lit_operator_lparen : forall q X, run_term (TLit "operator") {| pk := q; rest := sp lparen X |} = Fail.
@@ -1763,7 +1855,7 @@ Proof.
   intros cn m Hcn [Hus [Hct [Hcs [Hce Hcp]]]] Hcr Hwm p R f Hf.
   assert (X : exists y, f = Sn 6 (20 + y) /\ mem_fuel m + 14 <= y) by (exists (f - 26); cbn [Sn]; lia).
   destruct X as [y [Ef Hy]]. subst f. cbn [Sn].
-  destruct m as [args | t n args cst | t n | n items]; cbn [mem_toks mem_member wf_mem mem_fuel] in *.
+  destruct m as [args | t n args cst | t n | n items | t n args]; cbn [mem_toks mem_member wf_mem mem_fuel] in *.
   - (* constructor *)
     destruct (ctor_ok cn args Hcn Hct Hwm p R (6 + y) ltac:(lia)) as [v [p' [E Bm]]].
     exists v, p'. split; [|exact Bm].
@@ -1886,6 +1978,36 @@ Proof.
     + destruct (ident_first_alpha (chars_of n) Hn) as [c [w [En Hc]]]. destruct (alpha_plain c Hc) as [Cs [Cl _]]. rewrite En.
       apply (ctor_fails_second p kenum c w AFTER (6 + y) eq_refl ltac:(discriminate) Cs Cl).
     + apply (dunder_fails_w p kenum _ We (11 + y)). reflexivity.
+  - (* static method *)
+    destruct Hwm as [Hw [Hd [[h [rest' [Eh [Hwh [Hhp Hho]]]]] [Hn Ha]]]].
+    assert (HHt : head_word (ty_toks t)) by (exists h, rest'; split; [exact Eh|]; split; assumption).
+    destruct (static_ok t (chars_of n) args Hw Hd HHt Hn Ha p R (2 + y) ltac:(lia) ltac:(lia)) as [v [p' [E Bm]]].
+    exists v, p'. split; [|rewrite string_chars in Bm; exact Bm].
+    set (TL := lparen :: args_toks args ++ [rparen; semi]).
+    destruct (ty_second4 t (chars_of n) TL Hw Hn) as [h2 [c2 [t2 [r2 [E2 [Hh2 [Cs2 [Cl2 [Ce2 Csm2]]]]]]]]].
+    assert (Eh2 : h2 = h) by (rewrite Eh in E2; cbn [app] in E2; inversion E2; reflexivity). subst h2.
+    assert (ET : render (static_toks t (chars_of n) args) R = sp kstatic (sp h (sp (c2 :: t2) (render r2 R)))).
+    { unfold static_toks. rewrite render_app. change (render [kstatic] ?x) with (sp kstatic x). f_equal.
+      change ([chars_of n; lparen] ++ args_toks args ++ [rparen; semi]) with (chars_of n :: TL). rewrite E2. reflexivity. }
+    rewrite ET in *. clear ET. set (X := render r2 R) in *.
+    assert (Ws : word kstatic) by (split; [discriminate | reflexivity]).
+    assert (Bd : boundary (sp h (sp (c2 :: t2) X))) by (right; eexists; reflexivity).
+    assert (WH : wf_head_toks [kstatic]) by (exists kstatic, []; split; [reflexivity|]; split; [exact Ws|]; split; discriminate).
+    assert (HW : head_word [kstatic]) by (exists kstatic, []; split; [reflexivity|]; split; [exact Ws | discriminate]).
+    unfold MOR6. apply or2_l; [|apply (enum_fails2 p kstatic _ (15 + y) Ws Bd); discriminate].
+    unfold MOR5. apply or2_l.
+    2:{ apply (oper_fails_lit 13 [kstatic] _ (sp h (sp (c2 :: t2) X)) static_parses HW (follow_ident _ _ Hh2)).
+        - intros q. apply lit_operator_name; [exact Hh2 | right; eexists; reflexivity | exact Hho].
+        - lia. }
+    unfold MOR4. apply or2_l.
+    2:{ apply (variable_fails 13 [kstatic] (ty_value (kw_type "static")) h c2 t2 X static_parses Hh2 Cs2 Ce2 Csm2 (15 + y) p). lia. }
+    unfold MOR3. rewrite or2_r; [exact E|].
+    unfold MOR2. rewrite or2_r.
+    { apply (method_fails_nolparen 13 [kstatic] _ h c2 t2 X static_parses WH Hh2 Cs2 Cl2 (1 + y) p). lia. }
+    unfold MOR1. rewrite or2_r.
+    + destruct (ident_first_alpha h Hh2) as [ch [wh [Ehh Hch]]]. destruct (alpha_plain ch Hch) as [Sh [Lh _]]. rewrite Ehh.
+      apply (ctor_fails_second p kstatic ch wh _ (6 + y) eq_refl ltac:(discriminate) Sh Lh).
+    + apply (dunder_fails_w p kstatic _ Ws (11 + y)). reflexivity.
 Qed.
 
 (* ---- the members of a class, one after the other, up to the closing brace ---- *)
@@ -1918,7 +2040,7 @@ Lemma ctor_names : forall name ms,
   forallb (fun c => String.eqb (k_name c) name) (flat_map (fun m => match m with MCtor c => [c] | _ => [] end) (map (mem_member name) ms)) = true.
 Proof.
   intros name ms. induction ms as [|m ms IH]; [reflexivity|]. cbn [map flat_map]. rewrite forallb_app, IH, andb_true_r.
-  destruct m as [args | t n args cst | t n | n l]; cbn [mem_member]; unfold ctor_member, method_member; cbn [forallb k_name]; [|reflexivity|reflexivity|reflexivity].
+  destruct m as [args | t n args cst | t n | n l | t n args]; cbn [mem_member]; unfold ctor_member, method_member, static_member; cbn [forallb k_name]; [|reflexivity|reflexivity|reflexivity|reflexivity].
   rewrite String.eqb_refl. reflexivity.
 Qed.
 
@@ -2296,7 +2418,7 @@ Qed.
 Lemma mem_facts : forall cn m, is_ident cn = true -> wf_mem m ->
   Forall tok_ok (mem_toks cn m) /\ mem_fuel m + 1 <= 32 * length (mem_toks cn m).
 Proof.
-  intros cn m Hcn Hw. destruct m as [args | t n args cst | t n | en el]; cbn [mem_toks mem_fuel wf_mem] in *.
+  intros cn m Hcn Hw. destruct m as [args | t n args cst | t n | en el | t n args]; cbn [mem_toks mem_fuel wf_mem] in *.
   - destruct (args_facts args Hw) as [A1 A2]. unfold ctor_toks. split.
     + cbn [app]. constructor; [apply ident_tok; exact Hcn|]. constructor; [tok_lit|]. apply Forall_app. split; [exact A1 | tok_lit].
     + cbn [app length]. rewrite app_length. cbn [length]. lia.
@@ -2317,6 +2439,11 @@ Proof.
     + assert (L : length (more_toks (map (fun y : string => [chars_of y]) el)) = 2 * length el).
       { clear. induction el as [|y el IH]; [reflexivity|]. cbn [map]. rewrite more_toks_cons. cbn [length app]. rewrite IH. lia. }
       cbn [length app]. rewrite !app_length. cbn [length]. rewrite L. lia.
+  - destruct Hw as [Hw [Hd [_ [Hn Ha]]]]. destruct (ty_facts _ _ Hd Hw) as [T1 T2]. destruct (args_facts args Ha) as [A1 A2].
+    unfold static_toks. split.
+    + cbn [app]. constructor; [tok_lit|]. apply Forall_app. split; [exact T1|]. cbn [app]. constructor; [apply ident_tok; exact Hn|]. constructor; [tok_lit|].
+      apply Forall_app. split; [exact A1 | tok_lit].
+    + cbn [app length]. rewrite !app_length. cbn [length]. rewrite app_length. cbn [length]. lia.
 Qed.
 Lemma mems_facts : forall cn ms, is_ident cn = true -> Forall wf_mem ms ->
   Forall tok_ok (flat_map (mem_toks cn) ms) /\ length ms + mems_fuel ms <= 32 * length (flat_map (mem_toks cn) ms).
